@@ -114,13 +114,31 @@ class Obj:
         return "Obj(%s)" % ",".join(f"{k}={v!r}" for k, v in sorted(vars(self).items()))
 
 
+class Outer:
+    """Classes defined inside a class (dotted __qualname__): older pickle protocols reach them through getattr."""
+
+    class NInt(int):
+        pass
+
+    class NList(list):
+        pass
+
+    class Shade(enum.Enum):
+        DARK = "dark"
+
+    class NObj(Obj):
+        pass
+
+
 SUBCLASSES = {c.__name__: c for c in (MyInt, MyStr, MyBytes, MyFloat, MyList, MyTuple, MyDict)}
+SUBCLASSES.update({"Outer.NInt": Outer.NInt, "Outer.NList": Outer.NList})
 
 CONSTS = {
     "True": True, "False": False, "None": None,
     "1.5": 1.5, "0.0": 0.0, "-0.0": -0.0, "inf": float("inf"), "-inf": float("-inf"),
     "nan": float("nan"), "1e308": 1e308, "5e-324": 5e-324, "0.1": 0.1,
     "1+2j": 1 + 2j, "Ellipsis": Ellipsis, "RED": Color.RED, "range3": range(3),
+    "Outer.Shade.DARK": Outer.Shade.DARK, "Outer.NObj": Outer.NObj(a=1), "Outer.NInt-class": Outer.NInt,
 }
 
 _RAND = {}
@@ -309,7 +327,7 @@ def leaves():
         L += [["i", "digits", 1, n], ["i", "digits", -1, n]]
     # bool None float and other picklable scalars
     for name in ("True", "False", "None", "1.5", "0.0", "-0.0", "inf", "-inf", "nan", "1e308", "5e-324",
-                 "0.1", "1+2j", "Ellipsis", "RED", "range3"):
+                 "0.1", "1+2j", "Ellipsis", "RED", "range3", "Outer.Shade.DARK", "Outer.NObj", "Outer.NInt-class"):
         L.append(["c", name])
     L.append(["bytearray", ["b", "a", 3]])
     L.append(["bytearray", ["b", "rand", 401]])
@@ -325,7 +343,8 @@ def leaves():
           ["sub", "MyTuple", ["tuple", [["i", "lit", "1"], ["b", "a", 1]]]],
           ["sub", "MyDict", ["dict", [[["b", "a", 1], ["i", "lit", "1"]]]]],
           ["sub", "MyDict", ["dict", []], [["note", ["b", "a", 2]]]],
-          ["point", ["i", "lit", "1"], ["b", "a", 1]]]
+          ["point", ["i", "lit", "1"], ["b", "a", 1]],
+          ["sub", "Outer.NInt", ["i", "lit", "5"]], ["sub", "Outer.NList", ["list", [["i", "lit", "1"]]]]]
     L += [["cyc", "list-self"], ["cyc", "dict-self"], ["cyc", "tree-parent"], ["cyc", "shared"]]
     # lists whose pickle straddles each threshold, for every protocol (stdlib pickle as ruler)
     seen = set()
